@@ -53,7 +53,11 @@ def judge_C16(mm):
     others = [k for k in set(r['hdrs']) | set(sc['pre']) if k != runner.H_VARY and changed(sc, r, k)]
     if r['status'] == str(status):
         star, true_, starauth = runner.hx('*'), runner.hx('true'), runner.hx('*,authorization')
-        adm = [[star], [true_], [starauth]]
+        adm = [[star], [true_]]
+        # `*,authorization` only in the documented case (Props/C16.lean, `admissible`): anonymous access, `*` and Authorization both listed
+        names = [bytes.fromhex(x if x != '-' else '').decode('latin-1').lower() for x in cfg[3].split(',')] if cfg[3] not in ('~', '') else []
+        if cfg[1] == '0' and '*' in names and 'authorization' in names:
+            adm.append([starauth])
         ma = int(cfg[4])
         if ma != 0:
             adm.append([runner.hx('0' if ma == -1 else str(ma))])
